@@ -20,6 +20,8 @@ for k, c in reg.items():
         print(f'{k}[{label}] {dict(cnt)} {time.time()-t0:.1f}s', r.get('error', ''))
         if r.get('trace'):
             print(r['trace'])
+        for o in sorted(obs, key=lambda o: -o.get('time', 0))[:6]:
+            print('    slow', round(o.get('time', 0), 1), o.get('backend'), o['name'].split('::')[-1][:110])
         seen = set()
         for o in obs:
             if o['result'] != 'unsat' and not (o.get('kind') == 'cover' and o['result'] == 'sat'):
